@@ -323,6 +323,128 @@ func (c *Ctx) dedicatedE2E() {
 	}
 	c.multiLeakObservations()
 	c.retryReleaseEpisodes()
+	c.clusterStaleEpisodes()
+}
+
+// clusterStaleEpisodes: the CLUSTER client's DedicatedClient (cluster.go dedicatedClusterClient, which
+// keeps its wire pointer after release). Session A runs a command (so a wire is acquired) and is
+// released / closed / ends as Dedicated(fn); session B gets a wire of the same node (the same one
+// unless A closed it), installs hooks and subscribes; then the stale handle A calls one method.
+// Every method of a released handle must answer the recycled error (Close: nothing), nothing of A may
+// reach the server, B keeps its hooks and still receives its messages.
+func (c *Ctx) clusterStaleEpisodes() {
+	bg := context.Background()
+	for _, end := range []string{"release", "close", "fn"} {
+		for _, meth := range []string{"do", "multi", "receive", "sethooks", "setinv", "close"} {
+			srv := fakeredis.New(fakeredis.Options{Cluster: true})
+			cl, err := rueidis.NewClient(rueidis.ClientOption{InitAddress: []string{"127.0.0.1:6379"}, DialCtxFn: srv.Dial, DisableRetry: true, PipelineMultiplex: -1})
+			if err != nil || cl.Mode() != rueidis.ClientModeCluster {
+				panic(fmt.Sprint("no cluster client over the fake: ", err))
+			}
+			pub, err := rueidis.NewClient(rueidis.ClientOption{InitAddress: []string{"127.0.0.1:6379"}, DialCtxFn: srv.Dial, ForceSingleClient: true, DisableCache: true, DisableRetry: true})
+			if err != nil {
+				panic(err)
+			}
+			c.Emit("creset", "ok", false)
+			var a rueidis.DedicatedClient
+			switch end {
+			case "fn":
+				cl.Dedicated(func(dc rueidis.DedicatedClient) error {
+					a = dc
+					return dc.Do(bg, dc.B().Get().Key("{t}a").Build()).NonRedisError()
+				})
+				c.Emit("cret cdo", "ok", false)
+				c.Emit("cret crelease", "void", false)
+			default:
+				var rel func()
+				a, rel = cl.Dedicate()
+				a.Do(bg, a.B().Get().Key("{t}a").Build())
+				c.Emit("cret cdo", "ok", false)
+				if end == "release" {
+					rel()
+					c.Emit("cret crelease", "void", false)
+				} else {
+					a.Close()
+					c.Emit("cret cclose", "void", false)
+				}
+			}
+			// the next session on that node
+			b, relB := cl.Dedicate()
+			b.Do(bg, b.B().Get().Key("{t}b").Build())
+			var mu sync.Mutex
+			var gotB, gotA []string
+			chB := b.SetPubSubHooks(rueidis.PubSubHooks{OnMessage: func(m rueidis.PubSubMessage) { mu.Lock(); gotB = append(gotB, m.Message); mu.Unlock() }})
+			b.Do(bg, b.B().Subscribe().Channel("{t}ch").Build())
+			mark := len(srv.Log())
+			staleHooks := rueidis.PubSubHooks{OnMessage: func(m rueidis.PubSubMessage) { mu.Lock(); gotA = append(gotA, m.Message); mu.Unlock() }}
+			ret, op := "", ""
+			switch meth {
+			case "do":
+				op, ret = "cdo", recycledErr(a.Do(bg, a.B().Get().Key("{t}stale").Build()).Error())
+			case "multi":
+				op, ret = "cmulti 2", recycledErr(a.DoMulti(bg, a.B().Get().Key("{t}stale").Build(), a.B().Get().Key("{t}stale").Build())[0].Error())
+			case "receive":
+				rctx, cancel := context.WithTimeout(bg, 300*time.Millisecond) // a wrongly accepted Receive would block
+				op, ret = "creceive", recycledErr(a.Receive(rctx, a.B().Subscribe().Channel("{t}stale").Build(), func(rueidis.PubSubMessage) {}))
+				cancel()
+			case "sethooks":
+				op, ret = "csethooks 1 0", "ok"
+				if ch := a.SetPubSubHooks(staleHooks); ch != nil {
+					ret = chanErr(ch)
+				}
+			case "setinv":
+				op, ret = "csetinv 1", "ok"
+				if ch := a.SetOnInvalidations(func([]rueidis.RedisMessage) {}); ch != nil {
+					ret = chanErr(ch)
+				}
+			case "close":
+				a.Close()
+				op, ret = "cclose", "void"
+			}
+			c.Emit("cret "+op, ret, true)
+			// judgement
+			what := fmt.Sprintf("cluster dedicated client ended by %s, then %s", end, meth)
+			if meth != "close" && ret != "recycled" {
+				c.Fail("dedicated:cluster-released-client-accepted", "cret "+op, what+": the released handle was accepted instead of answering ErrDedicatedClientRecycled")
+			}
+			for _, e := range srv.Log()[mark:] {
+				if len(e.Argv) > 1 && strings.Contains(e.Argv[1], "stale") {
+					c.Fail("dedicated:cluster-released-client-accepted", "cret "+op, what+": a command of the released handle reached the server: "+strings.Join(e.Argv, " "))
+				}
+			}
+			intact := "intact"
+			select {
+			case err, open := <-chB:
+				intact = fmt.Sprintf("hook-channel-ended(%v,%v)", err, open)
+			default:
+			}
+			pub.Do(bg, pub.B().Publish().Channel("{t}ch").Message("m1").Build())
+			b.Do(bg, b.B().Ping().Build())
+			for dl := time.Now().Add(time.Second); time.Now().Before(dl); time.Sleep(100 * time.Microsecond) {
+				mu.Lock()
+				n := len(gotB)
+				mu.Unlock()
+				if n > 0 {
+					break
+				}
+			}
+			mu.Lock()
+			if intact == "intact" && strings.Join(gotB, ",") != "m1" {
+				intact = fmt.Sprintf("message-lost(next session got [%s], stale handle got [%s])", strings.Join(gotB, ","), strings.Join(gotA, ","))
+			}
+			mu.Unlock()
+			ans := ret + " next-session=" + intact
+			c.Emit(fmt.Sprintf("!cstale %s %s", meth, end), ans, false)
+			if intact != "intact" {
+				c.Fail("dedicated:cluster-stale-call-disturbed-next-session", "cret "+op, what+": "+intact)
+			}
+			c.Hit("cluster-stale:" + meth)
+			relB()
+			pub.Close()
+			cl.Close()
+			srv.Close()
+		}
+	}
 }
 
 // retryReleaseEpisodes: a dedicated Do / DoMulti / Receive sits in its retry loop (the server answers
